@@ -38,6 +38,14 @@ CHECKS = {
             'that expands every container once; per-case time limit decides termination. Assign/Delete through wildcards on tree targets against a plain loop.',
             'Children as read in DESIGN.md 3/C14; sets and raising containers only in a fixed side menu; tuple-only cycles cannot be built.',
             '3/C14'),
+    'C03': ('model_checking',
+            'bounded exhaustive enumeration of type-directed spec terms executed on the real glom against an independent reference interpreter plus model-free composition laws',
+            'Every spec term of depth <= 3 from a type-directed grammar over path, T, dict (computed keys, OrderedDict), list, tuple, Pipe, instrumented callables '
+            '(SKIP/STOP-producing, raising), Val, Spec, Coalesce x 13 option sets, Call, Invoke chains, Ref (incl. recursion) on four targets: value, container types, key order, '
+            'error class and the call log (which callable, which argument identity, order, count) are compared with a glom-free reference interpreter; the chain / dict / list laws '
+            'are checked on the implementation alone.',
+            'Children of deeper composites are pruned to the first K per (constructor, outcome class) - the pruned space is enumerated completely; STOP as a direct dict value is not generated.',
+            '3/C03'),
 }
 
 NOT_YET = {}
